@@ -10,6 +10,7 @@ mod corpus;
 mod c12;
 mod c01model;
 mod c10io;
+mod vp8parse;
 mod c13;
 mod c10;
 mod c11;
@@ -51,6 +52,7 @@ fn main() {
         "c12" => c12::run(tier, seed, out, extra),
         "c01model" => c01model::run(tier, seed, out, extra),
         "c10io" => c10io::run(tier, seed, out, extra),
+        "vp8parse" => vp8parse::run(tier, seed, out, extra),
         "c13" => c13::run(tier, seed, out, extra),
         "c10" => c10::run(tier, seed, out, extra),
         "c11" => c11::run(tier, seed, out, extra),
